@@ -44,7 +44,7 @@ def driver(chk, n_sessions):
     rng = random.Random(chk.seed + 12)
     plans = []
     for i in range(n_sessions):
-        n = rng.choice([1, 2, 2, 2, 3, 3, 4])
+        n = rng.choice([1, 2, 2, 2, 3, 3, 4]) if chk.tier != "quick" else rng.choice([1, 2, 2, 2, 3])
         keys = [rng.randrange(1, N) for _ in range(n)]
         r = rng.random()
         if n >= 2 and r < 0.25: keys[1] = keys[0]                      # first key repeated
@@ -124,7 +124,7 @@ def run(chk):
         chk.replay(recs, v, "generated sessions + session machine (all step orders), real group")
     labels(recs, hist, "G:")
     # T: sessions driven from python, recorded from the implementation, decided by TLC
-    events = driver(chk, 24 if quick else 300)
+    events = driver(chk, 16 if quick else 300)
     chk.validate(events, MODULE, "C12_trace.cfg", "driver", timeout=6000)
     labels(events, hist, "T:")
     nsteps = sum(hist.values())
